@@ -278,6 +278,46 @@ def oracle_reproducible_across_processes(ck):
                      inp={"seed": 3, "n_set": 2}, key={"site": "split-reproducibility", "across": "processes"}, oracle="split_reproducible_across_processes")
 
 
+def oracle_merged_batches(ck, rng):
+    """batches merged with from_loaders / add_loader, whose tomograms were registered under the same explicit ids in their own batches (or
+    are plain loaders): the average of the merged batch is the count-weighted mean over all the tomograms that went in"""
+    from acryo import SubtomogramLoader, BatchLoader, Molecules
+    from scipy.spatial.transform import Rotation
+    for it in range(3 if ck.tier == "quick" else 12):
+        parts, truth = [], []
+        for b_ in range(2):
+            bl = BatchLoader(order=1, output_shape=(5, 5, 5))
+            for j_, iid in enumerate((0, 1) if it % 3 else (3, 0)):
+                tomo = rng.normal(size=(15, 15, 15)).astype(np.float32) + 7.0 * (2 * b_ + j_ + 1)
+                nm = int(rng.integers(1, 4))
+                mol = Molecules(rng.integers(5, 10, size=(nm, 3)).astype(float), Rotation.random(nm, random_state=int(rng.integers(0, 2**31))))
+                bl.add_tomogram(tomo, mol, image_id=iid)
+                truth.append((tomo, mol))
+            parts.append(bl)
+        single = SubtomogramLoader(rng.normal(size=(15, 15, 15)).astype(np.float32) - 9.0, Molecules(rng.integers(5, 10, size=(2, 3)).astype(float)), order=1, output_shape=(5, 5, 5))
+        truth.append((single.image, single.molecules))
+        want = np.zeros((5, 5, 5)); cnt = 0
+        for tomo, mol in truth:
+            want += np.asarray(SubtomogramLoader(tomo, mol, order=1, output_shape=(5, 5, 5)).average()) * len(mol); cnt += len(mol)
+        want /= cnt
+        ways = {"from_loaders([a, b, single])": lambda: BatchLoader.from_loaders([parts[0], parts[1], single], order=1, output_shape=(5, 5, 5)),
+                "from_loaders([*a.loaders, *b.loaders, single])": lambda: BatchLoader.from_loaders([*parts[0].loaders, *parts[1].loaders, single], order=1, output_shape=(5, 5, 5)),
+                "a.copy().add_loader(b).add_loader(single)": lambda: parts[0].copy().add_loader(parts[1]).add_loader(single),
+                "single first, then b.loaders[...]": lambda: BatchLoader(order=1, output_shape=(5, 5, 5)).add_loader(single).add_loader(parts[0]).add_loader(parts[1])}
+        for how, mk in ways.items():
+            ck.oracle_count("merged_batch_average", 1, 1)
+            try:
+                mg = mk()
+                got = np.asarray(mg.average())
+                ok = len(mg.molecules) == cnt and len(mg.images) == len(truth) and np.allclose(got, want, atol=1e-4)
+                detail = f"{len(mg.molecules)} molecules in {len(mg.images)} tomograms (expected {cnt} in {len(truth)}); max deviation {np.abs(got - want).max():.3f}"
+            except Exception as e:  # noqa
+                ok, detail = False, f"raised {type(e).__name__}: {e}"
+            if not ok:
+                ck.violation(what=f"{how}: the average is not the count-weighted mean of the tomograms that were merged: {detail}", inp={"how": how, "iteration": it, "seed": ck.seed},
+                             key={"site": "merged-batches", "how": how.split("(")[0]}, oracle="merged_batch_average")
+
+
 def halves_partition(stack, hs):
     """the two half maps are plain means over two disjoint, jointly exhaustive, non-empty parts of the given sub-volumes (membership
     recovered by least squares: weight 1/k on the k members of a half, 0 elsewhere)"""
@@ -353,6 +393,7 @@ def run(ck: common.Check):
     oracle_batch_histories(ck, rng)
     oracle_reproducible_across_processes(ck)
     oracle_mock_loader(ck, np.random.default_rng(ck.seed + 9019))
+    oracle_merged_batches(ck, np.random.default_rng(ck.seed + 9029))
 
 
 def replay(data):
